@@ -10,9 +10,10 @@ Proof. reflexivity. Qed.
 
 Lemma C20_ok_means_configured p t p' :
   configure_port p t = Ok p' ->
-  sp_settings p' = wanted /\ sp_timeout p' = Some t /\ sp_fail p = FailNone.
+  sp_settings p' = wanted /\ sp_timeout p' = Some t /\ sp_fail p = FailNone /\ timeout_accepted p t = true.
 Proof.
   unfold configure_port. destruct (sp_fail p) eqn:Hf; intros H; try discriminate H.
+  destruct (timeout_accepted p t) eqn:Ha; [|discriminate H].
   injection H as <-. cbn [sp_settings sp_timeout]. repeat split.
 Qed.
 
@@ -23,35 +24,46 @@ Proof.
   exfalso. apply H. reflexivity.
 Qed.
 
-Lemma C20_no_failure_is_ok p t :
-  sp_fail p = FailNone ->
-  configure_port p t
-  = Ok {| sp_settings := wanted; sp_timeout := Some t; sp_fail := FailNone |}.
-Proof. unfold configure_port. intros ->. reflexivity. Qed.
+(* A timeout the device will not take is the device's refusal of set_timeout: an error, never a shorter timeout. *)
+Lemma C20_refused_timeout_is_error p t :
+  sp_fail p = FailNone -> timeout_accepted p t = false -> configure_port p t = Err (PErr FailTimeout).
+Proof. unfold configure_port. intros -> ->. reflexivity. Qed.
 
-(* Everything at once: the result is decided by [sp_fail p] alone; prior settings and the prior
+Lemma C20_no_failure_is_ok p t :
+  sp_fail p = FailNone -> timeout_accepted p t = true ->
+  configure_port p t
+  = Ok {| sp_settings := wanted; sp_timeout := Some t; sp_fail := FailNone; sp_max_timeout := sp_max_timeout p |}.
+Proof. unfold configure_port. intros -> ->. reflexivity. Qed.
+
+(* Everything at once: the result is decided by what the device refuses; prior settings and the prior
    timeout never matter. *)
 Lemma C20_configure_spec p t :
-  (sp_fail p = FailNone /\
-   configure_port p t = Ok {| sp_settings := wanted; sp_timeout := Some t; sp_fail := FailNone |})
+  (sp_fail p = FailNone /\ timeout_accepted p t = true /\
+   configure_port p t = Ok {| sp_settings := wanted; sp_timeout := Some t; sp_fail := FailNone;
+                              sp_max_timeout := sp_max_timeout p |})
+  \/ (sp_fail p = FailNone /\ timeout_accepted p t = false /\ configure_port p t = Err (PErr FailTimeout))
   \/ (sp_fail p <> FailNone /\ configure_port p t = Err (PErr (sp_fail p))).
 Proof.
   destruct (sp_fail p) eqn:Hf.
-  - left. split; [reflexivity|]. apply C20_no_failure_is_ok. exact Hf.
-  - right. split; [discriminate|]. rewrite <- Hf. apply C20_failure_is_error. rewrite Hf. discriminate.
-  - right. split; [discriminate|]. rewrite <- Hf. apply C20_failure_is_error. rewrite Hf. discriminate.
-  - right. split; [discriminate|]. rewrite <- Hf. apply C20_failure_is_error. rewrite Hf. discriminate.
-  - right. split; [discriminate|]. rewrite <- Hf. apply C20_failure_is_error. rewrite Hf. discriminate.
+  - destruct (timeout_accepted p t) eqn:Ha.
+    + left. repeat split. apply C20_no_failure_is_ok; assumption.
+    + right. left. repeat split. apply C20_refused_timeout_is_error; assumption.
+  - right. right. split; [discriminate|]. rewrite <- Hf. apply C20_failure_is_error. rewrite Hf. discriminate.
+  - right. right. split; [discriminate|]. rewrite <- Hf. apply C20_failure_is_error. rewrite Hf. discriminate.
+  - right. right. split; [discriminate|]. rewrite <- Hf. apply C20_failure_is_error. rewrite Hf. discriminate.
+  - right. right. split; [discriminate|]. rewrite <- Hf. apply C20_failure_is_error. rewrite Hf. discriminate.
 Qed.
 
 Lemma C20_serial_bus_ok p p' :
   serial_bus_try_new p = Ok p' ->
-  sp_settings p' = wanted /\ sp_timeout p' = Some 5000000000 /\ sp_fail p = FailNone.
+  sp_settings p' = wanted /\ sp_timeout p' = Some 5000000000 /\ sp_fail p = FailNone
+  /\ timeout_accepted p 5000000000 = true.
 Proof. apply C20_ok_means_configured. Qed.
 
 Lemma C20_odk_ok p p' :
   odk_try_new p = Ok p' ->
-  sp_settings p' = wanted /\ sp_timeout p' = Some 10000000000 /\ sp_fail p = FailNone.
+  sp_settings p' = wanted /\ sp_timeout p' = Some 10000000000 /\ sp_fail p = FailNone
+  /\ timeout_accepted p 10000000000 = true.
 Proof. apply C20_ok_means_configured. Qed.
 
 Lemma C20_constructors_fail p :
@@ -60,7 +72,13 @@ Lemma C20_constructors_fail p :
 Proof. intros H. split; apply C20_failure_is_error; exact H. Qed.
 
 Lemma C20_constructors_succeed p :
-  sp_fail p = FailNone ->
-  serial_bus_try_new p = Ok {| sp_settings := wanted; sp_timeout := Some 5000000000; sp_fail := FailNone |}
-  /\ odk_try_new p = Ok {| sp_settings := wanted; sp_timeout := Some 10000000000; sp_fail := FailNone |}.
-Proof. intros H. split; apply C20_no_failure_is_ok; exact H. Qed.
+  sp_fail p = FailNone -> timeout_accepted p 10000000000 = true ->
+  serial_bus_try_new p = Ok {| sp_settings := wanted; sp_timeout := Some 5000000000; sp_fail := FailNone;
+                               sp_max_timeout := sp_max_timeout p |}
+  /\ odk_try_new p = Ok {| sp_settings := wanted; sp_timeout := Some 10000000000; sp_fail := FailNone;
+                           sp_max_timeout := sp_max_timeout p |}.
+Proof.
+  intros H Ha. split; apply C20_no_failure_is_ok; try exact H; try exact Ha.
+  unfold timeout_accepted in *. destruct (sp_max_timeout p) as [l|]; [|reflexivity].
+  apply N.leb_le in Ha. apply N.leb_le. lia.
+Qed.
